@@ -43,6 +43,7 @@ func runC02(c *Ctx, r *Rec) {
 	ms := c.methodsOf(set)
 	checkEmptyOperand(c, r, "D1-empty-operand", c.info("collection"), ms)
 	checkResetCompleteness(c, r, "D1-reset-complete", set)
+	checkTypeLockPairing(c, r, "D1-lock-released", set)
 	// the search helper: the private method returning (int, bool)
 	var search *ast.FuncDecl
 	for _, name := range sortedKeys(ms) {
